@@ -1110,6 +1110,72 @@ static int vnadata_save_common(vnadata_t *vdp, FILE *fp, const char *filename,
 	vnadata_parameter_type_t target_type;
 
 	/*
+	 * Impedance, admittance and hybrid parameters are normalized
+	 * by plain scaling with the (common, real) reference impedance.
+	 * Re-referencing them through S parameters would lose the
+	 * digits of values far from z0.
+	 */
+	for (int i = 0; i < vdip->vdi_format_count; ++i) {
+	    const vnadata_parameter_type_t ptype =
+		vdip->vdi_format_vector[i].vfd_parameter;
+	    const double r = creal(z0_vector[0]);
+	    vnadata_t *vdp_n;
+
+	    if (ptype != VPT_Z && ptype != VPT_Y &&
+		    ptype != VPT_H && ptype != VPT_G) {
+		continue;
+	    }
+	    if (conversions[ptype] != NULL) {
+		continue;
+	    }
+	    if ((vdp_n = vnadata_alloc(vdip->vdi_error_fn,
+			    vdip->vdi_error_arg)) == NULL) {
+		goto out;
+	    }
+	    conversions[ptype] = vdp_n;
+	    if (vnadata_convert(vdp, vdp_n, ptype) == -1) {
+		goto out;
+	    }
+	    for (int findex = 0; findex < frequencies; ++findex) {
+		for (int row = 0; row < ports; ++row) {
+		    for (int column = 0; column < ports; ++column) {
+			double complex v;
+
+			v = vnadata_get_cell(vdp_n, findex, row, column);
+			switch (ptype) {
+			case VPT_Z:
+			    v /= r;
+			    break;
+			case VPT_Y:
+			    v *= r;
+			    break;
+			case VPT_H:
+			    if (row == 0 && column == 0) {
+				v /= r;
+			    } else if (row == 1 && column == 1) {
+				v *= r;
+			    }
+			    break;
+			default:	/* VPT_G */
+			    if (row == 0 && column == 0) {
+				v *= r;
+			    } else if (row == 1 && column == 1) {
+				v /= r;
+			    }
+			    break;
+			}
+			(void)vnadata_set_cell(vdp_n, findex, row, column, v);
+		    }
+		}
+	    }
+	    if (vnadata_set_all_z0(vdp_n, 1.0) == -1) {
+		_vnadata_error(vdip, VNAERR_SYSTEM,
+			"vnadata_set_all_z0: %s", strerror(errno));
+		goto out;
+	    }
+	}
+
+	/*
 	 * If the input type is S or T, make a writeable copy.	Otherwise,
 	 * convert to S using the existing z0.
 	 */
